@@ -37,17 +37,17 @@ const PALETTE: [(&str, bool, bool); 12] = [
     ("Option<u32>", true, true),
 ];
 
-fn add(b: &mut NativeRecordDefinitionBuilder<HostTypeResolver>, ty: usize, name: String, uninit: bool) -> DatumId {
+fn add(b: &mut NativeRecordDefinitionBuilder<HostTypeResolver>, ty: usize, name: String, uninit: bool) -> Result<DatumId, String> {
     macro_rules! go {
         ($t:ty) => {
             if uninit {
-                b.add_datum_allow_uninit::<$t, _>(name).unwrap()
+                b.add_datum_allow_uninit::<$t, _>(name)
             } else {
-                b.add_datum::<$t, _>(name).unwrap()
+                b.add_datum::<$t, _>(name)
             }
         };
         (nc $t:ty) => {
-            b.add_datum::<$t, _>(name).unwrap()
+            b.add_datum::<$t, _>(name)
         };
     }
     match ty {
@@ -85,6 +85,7 @@ struct Def {
 fn build(spec: &str) -> Def {
     let mut b = NativeRecordDefinitionBuilder::new(HostTypeResolver);
     let mut info: Vec<Field> = Vec::new();
+    let mut idmap: Vec<usize> = Vec::new(); // identifier the spec counts on -> identifier the builder gave
     for t in spec.split_whitespace() {
         let p: Vec<&str> = t.split(':').collect();
         match p[0] {
@@ -92,12 +93,24 @@ fn build(spec: &str) -> Def {
                 let ty: usize = p[2].parse().unwrap();
                 let uninit = p[3] != "0" && PALETTE[ty].1;
                 let name = format!("f{}", p[1]);
-                let id = add(&mut b, ty, name.clone(), uninit);
+                let id = add(&mut b, ty, name.clone(), uninit).unwrap();
                 let idn: usize = format!("{}", id).parse().unwrap();
                 assert_eq!(idn, info.len());
+                idmap.push(idn);
                 info.push(Field { id: idn, name, ty, uninit });
             }
-            "R" => b.remove_datum(DatumId::from(p[1].parse::<usize>().unwrap())).unwrap(),
+            // an add the builder must refuse (the name is live); if it is accepted the datum is part of the
+            // definition from then on and whatever the generator makes of it is compiled like everything else
+            "D" => {
+                let ty: usize = p[2].parse().unwrap();
+                let name = format!("f{}", p[1]);
+                if let Ok(id) = add(&mut b, ty, name.clone(), false) {
+                    let idn: usize = format!("{}", id).parse().unwrap();
+                    assert_eq!(idn, info.len());
+                    info.push(Field { id: idn, name, ty, uninit: false });
+                }
+            }
+            "R" => b.remove_datum(DatumId::from(idmap[p[1].parse::<usize>().unwrap()])).unwrap(),
             "C" => {
                 match p[1] {
                     "0" => b.close_record_variant_with(variant::simple),
@@ -142,7 +155,9 @@ fn gen_spec(rng: &mut Rng) -> String {
         let nadd = if v == 0 { rng.below(6) } else { rng.below(4) };
         for _ in 0..nadd {
             // sometimes the name of a datum removed in this very step (a type change)
+            let mut reused = false;
             let name = if !removed_names.is_empty() && rng.chance(35) {
+                reused = true;
                 removed_names.pop().unwrap()
             } else {
                 next_name += 1;
@@ -153,6 +168,14 @@ fn gen_spec(rng: &mut Rng) -> String {
             write!(s, "A:{}:{}:{} ", name, ty, uninit as u8).unwrap();
             cur.push((next_id, name));
             next_id += 1;
+            // now and then a second add under a live name, which the builder refuses (C12)
+            if reused && rng.chance(40) {
+                // ... in particular under the name of a datum being replaced in this very step
+                write!(s, "D:{}:{} ", name, rng.below(PALETTE.len())).unwrap();
+            } else if rng.chance(12) {
+                let (_, live) = cur[rng.below(cur.len())];
+                write!(s, "D:{}:{} ", live, rng.below(PALETTE.len())).unwrap();
+            }
         }
         write!(s, "C:{} ", rng.below(4)).unwrap();
     }
@@ -219,6 +242,18 @@ fn driver(k: usize, d: &Def, with_andout: bool) -> String {
         writeln!(o, "        let s: Vec<(usize, usize)> = vec![{}, (std::mem::size_of::<{m}::RecordUninitialized<{{ {m}::MAX_SIZE + {extra} }}>>(), std::mem::align_of::<{m}::RecordUninitialized<{{ {m}::MAX_SIZE + {extra} }}>>())];", sizes.join(", ")).unwrap();
         writeln!(o, "        if s.iter().any(|x| *x != s[0]) {{ out.push(format!(\"FAIL {{}} C03 record types of one definition differ in (size, align) at capacity MAX_SIZE+{extra}: {{:?}}\", M, s)); }}").unwrap();
         writeln!(o, "        if s[0].0 < {m}::MAX_SIZE + {extra} {{ out.push(format!(\"FAIL {{}} C02 a record type is smaller ({{}}) than its capacity\", M, s[0].0)); }}").unwrap();
+        writeln!(o, "        n += 1;").unwrap();
+    }
+    // C02: the alignment of every record type is a multiple of the alignment of every datum of every variant
+    {
+        let mut tys: Vec<&'static str> = d.variants.iter().flatten().map(|f| tyx(f)).collect();
+        tys.sort();
+        tys.dedup();
+        for v in 0..nv {
+            for t in &tys {
+                writeln!(o, "        if std::mem::align_of::<{m}::Record{v}>() % std::mem::align_of::<{t}>() != 0 {{ out.push(format!(\"FAIL {{}} C02 the alignment {{}} of Record{v} is not a multiple of the alignment {{}} of the field type {t} stored by a variant of this definition\", M, std::mem::align_of::<{m}::Record{v}>(), std::mem::align_of::<{t}>())); }}").unwrap();
+            }
+        }
         writeln!(o, "        n += 1;").unwrap();
     }
     writeln!(o, "    }}").unwrap();
@@ -370,6 +405,14 @@ pub fn aligned(addr: usize, align: usize, out: &mut Vec<String>, m: usize, ctx: 
 pub fn checkpoint(out: &mut Vec<String>, m: usize, what: &str) {
     for e in take_errors() {
         out.push(format!("FAIL {} C06 {}: {}", m, what, e));
+        // a destructor that ran where no value was stored is an access to a moved-out value (C07); in the
+        // clone scenarios it is the clone (or its source) losing a value to the other (C16)
+        if e.contains("destroyed twice") || e.contains("more ") {
+            out.push(format!("FAIL {} C07 {}: a value was destroyed where none was stored: {}", m, what, e));
+            if what.contains("clone") {
+                out.push(format!("FAIL {} C16 {}: {}", m, what, e));
+            }
+        }
     }
     let live = take_live();
     if !live.is_empty() {
